@@ -1158,6 +1158,7 @@ func main() {
 		{name: "2 callers, caller 1 cancelled concurrently", calls: 2, waitFor: 1, cancel: 1},
 		{name: "2 callers, peer never answers the first arrival", calls: 2, waitFor: 1, silentOn: 1},
 		{name: "2 callers, peer answers the first call twice", calls: 2, waitFor: 2, dupe: true},
+		{name: "2 callers, the peer answers the first call twice while caller 1 is cancelled", calls: 2, waitFor: 1, dupe: true, cancel: 1},
 		{name: "1 caller; the peer sends 2 calls of its own and a notification, answered asynchronously by the handler", calls: 1, waitFor: 1, peerCalls: 2, peerNotes: true},
 		{name: "2 callers, the peer answers both and closes the connection right behind the last response", calls: 2, waitFor: 1, closeBehind: true},
 		{name: "1 caller; the handler returns an error for a notification of the peer (the connection fails, nothing may panic)", calls: 1, waitFor: 1, failNote: true, silentOn: 1},
